@@ -69,10 +69,13 @@ def all_paths(jp, env, text, doc):
                 res["%s.%s" % (label, m)] = (None, type(e).__name__)
             ones["%s.find_one" % label] = ("error", type(e).__name__)
             continue
+        # find_one first: it abandons its iterator half-way, which must not affect the calls that follow on the same compiled query
+        ones["%s.find_one" % label] = call_one(lambda: c.find_one(doc))
         res["%s.find" % label] = call_list(lambda: c.find(doc))
         res["%s.apply" % label] = call_list(lambda: c.apply(doc))
         res["%s.finditer" % label] = call_list(lambda: c.finditer(doc))
-        ones["%s.find_one" % label] = call_one(lambda: c.find_one(doc))
+        ones["%s.find_one(again)" % label] = call_one(lambda: c.find_one(doc))
+        res["%s.find(again)" % label] = call_list(lambda: c.find(doc))
     return res, ones
 
 
